@@ -130,7 +130,7 @@ func (lineWorld) Gen(seed uint64, tier string) core.Scenario {
 		case 2:
 			mlen = r.Range(41, 400)
 		default:
-			mlen = r.PickInt(1999, 2000, 1024, 1000)
+			mlen = r.PickInt(1999, 2000, 1024, 1000, 2047, 2048, 2049, 4096, 5000)
 		}
 		msg := r.Bytes(mlen)
 		if r.Chance(1, 4) { // leading zero nibbles / zero bytes / newline and space byte values
